@@ -372,6 +372,14 @@ impl<'a> G<'a> {
                     out.push(format!("{}PRINT {};", inner, c));
                 }
                 self.block(depth - 1, out, &inner);
+                // leaving the procedure from inside a FOR body on its last round
+                if let Some(k) = self.cur {
+                    if self.rng.chance(1, 3) {
+                        self.feat("exit-in-for");
+                        let kw = if self.procs[k].is_fn { "FUNCTION" } else { "SUB" };
+                        out.push(format!("{}IF {} = {} THEN EXIT {}", inner, c, hi, kw));
+                    }
+                }
                 out.push(format!("{}NEXT", ind));
                 self.for_depth -= 1;
             }
@@ -388,6 +396,15 @@ impl<'a> G<'a> {
                 }
                 out.push(format!("{}CASE ELSE", ind));
                 self.block(depth - 1, out, &inner);
+                // leaving the procedure from inside a SELECT block: the selector must not stay on the value stack
+                // (the caller may have a pending operand there)
+                if let Some(k) = self.cur {
+                    if self.rng.chance(1, 2) {
+                        self.feat("exit-in-select");
+                        let kw = if self.procs[k].is_fn { "FUNCTION" } else { "SUB" };
+                        out.push(format!("{}EXIT {}", inner, kw));
+                    }
+                }
                 out.push(format!("{}END SELECT", ind));
             }
             _ => {
@@ -519,7 +536,13 @@ impl<'a> G<'a> {
             for _ in 0..m {
                 self.stmt(2, &mut body, "  ");
             }
-            if p.is_fn && self.rng.chance(3, 4) {
+            if p.is_fn && p.is_static && self.rng.chance(1, 2) {
+                // a STATIC function that assigns its result on some calls only: the other calls must yield zero / ""
+                self.feat("static-function-assigns-sometimes");
+                let e = self.expr(p.ret, 1);
+                let n = self.rng.range(1, 2);
+                body.push(format!("  IF CNT% = {} THEN {} = {}", n, p.name, e));
+            } else if p.is_fn && self.rng.chance(3, 4) {
                 let e = self.expr(p.ret, 1);
                 body.push(format!("  {} = {}", p.name, e));
             } else if p.is_fn {
@@ -593,6 +616,11 @@ fn verdicts(text: &str) -> Option<(Observed, String, String, String)> {
 }
 
 fn fails(text: &str, which: &str, what: &str) -> bool {
+    // a candidate that loops (a deleted loop increment) is not a smaller failing program, and the model interpreters would
+    // burn their whole budget on it: look at the real run first
+    if proc_sx::src_and_code(text).is_none() || run_real(text, b"", BUDGET).outcome == "budget" {
+        return false;
+    }
     let Some((real, cmp, vm, rf)) = verdicts(text) else { return false };
     if real.outcome == "budget" {
         return false;
